@@ -3,4 +3,4 @@ From CyVerif Require Import Lib.CInt Model.M_Trace Model.M_TraceGen.
 Extraction "../ocaml/gen/m_trace.ml" ex_keep ev_cy ev_py parse well_nested nests_as shape_of size clean started
   count_class throw_as_resume
   run seg_at word to_node complete prog_ok func_ok is_term clean_b epilogue default_branch count_yield
-  all_true g_not_inlined.
+  as_is wrap_fixed g_not_inlined.
